@@ -62,6 +62,7 @@ class Child(object):
         self.buf = b""
         self.pending = None
         self.steps = 0
+        self.trace = []          # the operations granted so far ("<n> <operation>")
 
     def wait_request(self):
         """block until the child asks for its next operation (or finishes)"""
@@ -86,6 +87,7 @@ class Child(object):
         if self.done:
             return False
         os.write(self.grant_w, b"G")
+        self.trace.append(self.pending.split(" ", 1)[-1] if self.pending else "?")
         self.pending = None
         self.steps += 1
         return True
@@ -142,6 +144,7 @@ def run_schedule(fns, base, segments, check_boundary):
     pb = check_boundary()
     if pb:
         problems.append(pb)
+    run_schedule.last_traces = [k.trace for k in kids]
     return [k.result for k in kids], [k.steps for k in kids], problems
 
 
@@ -157,6 +160,18 @@ def run(ctx):
         w = progs.gen_world(rng, nfun=rng.randint(2, 3), allow=("call", "keep", "datafn"))
         for f in w["funs"]:
             f["uses_ext"] = False
+        if i % 3 == 0:
+            # the cold-store scenario commits into directories that do not exist yet: nested paths sharing their parents
+            n = [0]
+            for f in w["funs"]:
+                if f.get("store_path"):
+                    f["store_path"] = "/nest/deep" + f["store_path"]
+                for it in f["items"]:
+                    if it["k"] == "load" and it["path"].startswith("/df"):
+                        it["path"] = "/nest/deep" + it["path"]
+                    if it["k"] == "keep":
+                        n[0] += 1
+                        it["path"] = "/nest/deep/p%d" % n[0] if n[0] % 2 else "/nest/q%d" % n[0]
         scen.append((["same_keep_cold", "keep_vs_load", "two_views"][i % 3], w))
     for si, (kind, w) in enumerate(scen):
         tmp = tempfile.mkdtemp(prefix="ddsverif_c07_")
@@ -228,8 +243,16 @@ def run(ctx):
             _repoint(d0, template)
             results, steps, problems = run_schedule(mk_fns(d0), d0, [], boundary_check(d0))
             n0, n1 = steps
+            traces = run_schedule.last_traces
             shutil.rmtree(d0, ignore_errors=True)
             schedules = []
+            # directed: a process is stopped right before it creates a directory (check-then-create windows), the other one
+            # runs to completion in between
+            for pi in (0, 1):
+                for a, opname in enumerate(traces[pi]):
+                    if opname in ("mkdir", "makedirs"):
+                        schedules.append([(pi, a), (1 - pi, 10 ** 6)])
+            res.count("schedules_before_directory_creation", len(schedules))
             for a in range(0, n0 + 1, 1 if thorough else max(1, n0 // 12)):
                 schedules.append([(0, a), (1, 10 ** 6)])
             for b in range(0, n1 + 1, 1 if thorough else max(1, n1 // 12)):
